@@ -228,8 +228,8 @@ def run(tier):
     t_tlc = time.time() - t0
 
     found = {}
-    for idx, exp in mism:
-        exp = exp if isinstance(exp, dict) else {"rule": str(exp)}
+    norm = [(idx, exp if isinstance(exp, dict) else {"rule": str(exp)}) for idx, exp in mism]
+    for idx, exp in sorted(norm, key=lambda m: m[1].get("rule") == "protocol"):    # coverage problems first
         ev = events[idx]
         rule = exp.get("rule")
         if rule != "protocol":
